@@ -325,6 +325,13 @@ impl<Error> StreamingSoundHandle<Error> {
 		self.command_writers.seek_by.write(amount)
 	}
 
+	/// Identifies this sound in verification hook calls (`kira::verif`).
+	#[cfg(kira_verif)]
+	#[must_use]
+	pub fn verif_id(&self) -> usize {
+		Arc::as_ptr(&self.shared) as usize
+	}
+
 	/// Returns an error that occurred while decoding audio, if any.
 	#[must_use]
 	pub fn pop_error(&mut self) -> Option<Error> {
